@@ -344,6 +344,52 @@ class H4Prebuffered(H4LocationService):
         return bad
 
 
+class H4Beacon(H4LocationService):
+    """guc(one->D) || [rx(first SHB from D); guc(two->D)]; D answers every location-service request (the answer is a thread of
+    its own, started when the request leaves the link layer).  Timers follow the virtual clock, so no lookup is abandoned
+    before its answer has been processed: both requests must go out exactly once, nothing may stay buffered."""
+    sched_kw = dict(timers_use_clock=True)
+
+    def extra_setup(self):
+        H4LocationService.extra_setup(self)
+        self.shb = G.build("shb", so_addr=ADDR_D, so=dict(tst=tst(self.s.now), lat=LAT + 4000, lon=LON, pai=1), nh=G.CNH_BTPB,
+                           payload=b"\x07\xd1\x00\x00hello")
+        self.answers = 0
+        orig_send = self.ll.send
+
+        def send(packet):
+            orig_send(packet)
+            if G.parse(bytes(packet))["kind"] == "ls_request" and self.answers < 3:
+                self.answers += 1
+                k = self.answers         # a fresh reply each time (own sequence number and timestamp: not a duplicate)
+                reply = G.build("ls_reply", so_addr=ADDR_D, so=dict(tst=tst(self.s.now) + k, lat=LAT + 4000, lon=LON, pai=1),
+                                sn=3 + k, rhl=5, mhl=5, de=dict(addr=ADDR_R, tst=tst(self.s.now), lat=LAT, lon=LON))
+                self.s.spawn("answer%d" % k, lambda: self.r.gn_data_indicate(reply))
+        self.ll.send = send
+
+    def actors(self):
+        a = H4LocationService.actors(self)
+        return [("g1", a[0][1]), ("shb_g2", lambda: (self.r.gn_data_indicate(self.shb), a[1][1]()))]
+
+    def check(self, s):
+        bad = [b for b in H4LocationService.check(self, s) if b["kind"] not in ("unicast_request_lost",)]
+        gucs = [p for p in self.frames() if p["kind"] == "guc"]
+        for name in (b"one", b"two"):
+            n = sum(1 for p in gucs if p["payload"].endswith(name))
+            if n != 1:
+                bad.append(dict(kind="unicast_not_sent_exactly_once_after_reply", request=name.decode(), count=n,
+                                frames=[(a, G.parse(f)["kind"]) for a, f in self.ll.sent]))
+        return bad
+
+
+class H4BeaconB(H4Beacon):
+    """[guc(one->D); guc(two->D)] || rx(first SHB from D), same environment and oracle as H4b"""
+
+    def actors(self):
+        a = H4LocationService.actors(self)
+        return [("g12", lambda: (a[0][1](), a[1][1]())), ("shb", lambda: self.r.gn_data_indicate(self.shb))]
+
+
 class H5Small(H5Dpd):
     def actors(self):
         return H5Dpd.actors(self)[:2]
@@ -357,7 +403,7 @@ class H5Small(H5Dpd):
         return bad
 
 
-HARNESSES = {"H4p": H4Prebuffered, "H4t": H4Timeout, "H1s": H1Small, "H3s": H3Small, "H4s": H4Small, "H5s": H5Small, "H1": H1Sequence, "H2": H2Cbf, "H2b": H2bSeam, "H3": H3EgoPv, "H4": H4LocationService, "H5": H5Dpd}
+HARNESSES = {"H4b": H4Beacon, "H4c": H4BeaconB, "H4p": H4Prebuffered, "H4t": H4Timeout, "H1s": H1Small, "H3s": H3Small, "H4s": H4Small, "H5s": H5Small, "H1": H1Sequence, "H2": H2Cbf, "H2b": H2bSeam, "H3": H3EgoPv, "H4": H4LocationService, "H5": H5Dpd}
 
 
 def make(name):
@@ -366,8 +412,8 @@ def make(name):
 
 def run(ctx):
     thorough = ctx.tier == "thorough"
-    plan = {"H1s": 1, "H2": 1, "H2b": 2, "H3s": 1, "H4s": 1, "H4t": 1, "H4p": 1, "H5s": 1} if not thorough else \
-           {"H1s": 2, "H1": 1, "H2": 2, "H2b": 3, "H3s": 2, "H3": 1, "H4s": 2, "H4t": 2, "H4p": 2, "H4": 1, "H5s": 2, "H5": 1}
+    plan = {"H1s": 1, "H2": 1, "H2b": 2, "H3s": 1, "H4s": 1, "H4t": 1, "H4p": 1, "H4b": 1, "H5s": 1} if not thorough else \
+           {"H1s": 2, "H1": 1, "H2": 2, "H2b": 3, "H3s": 2, "H3": 1, "H4s": 2, "H4t": 2, "H4p": 2, "H4b": 2, "H4c": 1, "H4": 1, "H5s": 2, "H5": 1}
     tot_s = tot_steps = 0
     outcomes = 0
     samples = []
